@@ -295,6 +295,11 @@ namespace GeographicLib {
     // 25 = ceil(log_2(2e7)) -- use half circumference here because
     // northing 195e5 is a legal in the "southern" hemisphere.
     static const real eps = ldexp(real(1), -(Math::digits() - 25));
+    // Reject infinite or absurdly large coordinates before they are converted
+    // to int below (NaNs are dealt with by the callers).
+    if (!(fabs(x) < real(numeric_limits<int>::max()) &&
+          fabs(y) < real(numeric_limits<int>::max())))
+      throw GeographicErr("Easting or northing not in MGRS range");
     int
       ix = int(floor(x / tile_)),
       iy = int(floor(y / tile_)),
